@@ -1007,4 +1007,177 @@ Proof.
         split; [exact Enf|exact Dqf].
 Qed.
 
+(* ---------- one whole run from an arbitrary idle pre-state ---------- *)
+
+(* every doer of the tree can be (re)started; every DoDoer has its kids as doers and an empty deque *)
+Fixpoint g_idle1 s (g : gtree T) : Prop :=
+  match g with
+  | TLeaf l => startable s (lf_id l) = true
+  | TGroup n kids =>
+    startable s n = true /\ doers (get_sched s n) = map gt_top kids /\ deeds (get_sched s n) = [] /\
+    all (g_idle1 s) kids
+  end.
+
+Lemma idle_startable s : forall G, all (g_idle1 s) G -> forall x, In x (gts_ids G) -> startable s x = true.
+Proof.
+  induction G as [|l r IH|n kids r IHk IH] using gtrees_ind; intros Hi x Hx.
+  - destruct Hx.
+  - cbn [all g_idle1] in Hi. rewrite gts_ids_leaf in Hx. destruct Hi as [Il Ir].
+    destruct Hx as [<-|Hx]; [exact Il|now apply IH].
+  - cbn [all g_idle1] in Hi. rewrite gts_ids_group in Hx. destruct Hi as [(In_ & _ & _ & Ik) Ir].
+    destruct Hx as [<-|Hx]; [exact In_|]. apply in_app_or in Hx as [Hx|Hx]; [now apply IHk|now apply IH].
+Qed.
+
+Lemma idle_st s : forall G, all (g_idle1 s) G -> all (g_st1 s) G.
+Proof.
+  induction G as [|l r IH|n kids r IHk IH] using gtrees_ind; intro Hi; [exact I| |]; cbn [all g_idle1 g_st1] in *.
+  - split; [exact I|]. apply IH, Hi.
+  - destruct Hi as [(_ & Do & Dq & Ik) Ir]. split; [split; [exact Do|split; [exact Dq|auto]]|auto].
+Qed.
+
+Lemma idle_from_ended s0 s : forall G,
+  all (g_idle1 s0) G -> all (g_wf1 vis z0 (defs s)) G -> same_doers s0 s ->
+  (forall x, In x (gts_ids G) -> endedid s x) -> all (g_idle1 s) G.
+Proof.
+  intros G Hi W SD. revert Hi W.
+  induction G as [|l r IH|n kids r IHk IH] using gtrees_ind; intros Hi W En; [exact I| |]; cbn [all g_idle1 g_wf1] in *.
+  - destruct Hi as [_ Ir]. destruct W as [_ Wr]. split.
+    + destruct (En (lf_id l)) as [Gd _]; [rewrite gts_ids_leaf; now left|]. unfold startable. now rewrite Gd.
+    + apply IH; [exact Ir|exact Wr|]. intros x Hx. apply En. rewrite gts_ids_leaf. now right.
+  - destruct Hi as [(_ & Do & _ & Ik) Ir]. destruct W as [(_ & [kids0 D] & Wk) Wr].
+    destruct (En n) as [Gd Dq]; [rewrite gts_ids_group; now left|]. rewrite D in Dq.
+    split; [split; [|split; [|split]]|].
+    + unfold startable. now rewrite Gd.
+    + rewrite SD. exact Do.
+    + exact Dq.
+    + apply IHk; [exact Ik|exact Wk|]. intros x Hx. apply En. rewrite gts_ids_group. right. apply in_or_app. now left.
+    + apply IH; [exact Ir|exact Wr|]. intros x Hx. apply En. rewrite gts_ids_group. right. apply in_or_app. now right.
+Qed.
+
+Lemma idle_gframe Xg Xs s s' : forall G,
+  gframe Xg Xs s s' -> (forall x, In x (gts_ids G) -> ~ In x Xg /\ ~ In x Xs) ->
+  all (g_idle1 s) G -> all (g_idle1 s') G.
+Proof.
+  intros G (_ & FG & FS).
+  induction G as [|l r IH|n kids r IHk IH] using gtrees_ind; intros Hn Hi; [exact I| |]; cbn [all g_idle1] in *.
+  - destruct Hi as [Il Ir]. split.
+    + unfold startable. rewrite FG; [exact Il|]. apply Hn. rewrite gts_ids_leaf. now left.
+    + apply IH; [|exact Ir]. intros x Hx. apply Hn. rewrite gts_ids_leaf. now right.
+  - destruct Hi as [(In_ & Do & Dq & Ik) Ir].
+    assert (Hn' : ~ In n Xg /\ ~ In n Xs) by (apply Hn; rewrite gts_ids_group; now left).
+    split; [split; [|split; [|split]]|].
+    + unfold startable. rewrite FG; [exact In_|apply Hn'].
+    + rewrite FS; [exact Do|apply Hn'].
+    + rewrite FS; [exact Dq|apply Hn'].
+    + apply IHk; [|exact Ik]. intros x Hx. apply Hn. rewrite gts_ids_group. right. apply in_or_app. now left.
+    + apply IH; [|exact Ir]. intros x Hx. apply Hn. rewrite gts_ids_group. right. apply in_or_app. now right.
+Qed.
+
+(* the common body of Doist.do: enter the root doers, run the cycle loop *)
+Definition run_tail (cycles fuel : nat) (limit : option T) (s0 : st T) (ds : list id) : st T :=
+  let '(s1, r) := enter_own tk fuel s0 0%N ds in
+  match r with
+  | GRaise _ => emit (close_own tk fuel s1 0%N) DoRaise 0%N
+  | GFuel => s1
+  | _ =>
+    let lim := option_map tabs limit in
+    let stop := tadd (tyme s1) (match lim with Some l => l | None => tzero end) in
+    cycle_loop tk cycles fuel (set_rlive s1 true) lim stop
+  end.
+
+Definition tspec_tail (cycles : nat) (limit : option T) (t : T) (cur : list (gtree T)) (o : out T) : option (T * out T) :=
+  let '(its, o1) := tenter t cur o in
+  let limit' := option_map tabs limit in
+  let stop := tadd t (match limit' with Some l => l | None => tzero end) in
+  tspec_cycles tk (tabs z0) cycles t its o1 limit' stop.
+
+Lemma run_tail_oof cycles fuel limit s0 ds : oof s0 = true -> oof (run_tail cycles fuel limit s0 ds) = true.
+Proof.
+  intro O. unfold run_tail. destruct (enter_own tk fuel s0 0%N ds) as [s1 r] eqn:E.
+  assert (O1 : oof s1 = true).
+  { destruct (oof s1) eqn:X; [reflexivity|]. apply (oof_enter_own tk _ _ _ _ _ _ E) in X. congruence. }
+  destruct r; cbv zeta; try exact O1; try (apply cycle_loop_oof_fwd; exact O1).
+  rewrite oof_emit. now apply close_own_oof_fwd.
+Qed.
+
+Lemma tail_spec cycles fuel limit s0 (cur : list (gtree T)) o :
+  oof (run_tail cycles fuel limit s0 (map gt_top cur)) = false ->
+  all (g_wf1 vis z0 (defs s0)) cur -> all (g_idle1 s0) cur -> NoDup (0%N :: gts_ids cur) ->
+  deeds (get_sched s0 0%N) = [] -> out_ok vis s0 o ->
+  exists t' o', tspec_tail cycles limit (tyme s0) cur o = Some (t', o') /\
+    tyme (run_tail cycles fuel limit s0 (map gt_top cur)) = t' /\
+    out_ok vis (run_tail cycles fuel limit s0 (map gt_top cur)) o' /\
+    gframe (gts_ids cur) (0%N :: gts_ids cur) s0 (run_tail cycles fuel limit s0 (map gt_top cur)) /\
+    same_doers s0 (run_tail cycles fuel limit s0 (map gt_top cur)) /\
+    (forall x, In x (gts_ids cur) -> endedid (run_tail cycles fuel limit s0 (map gt_top cur)) x) /\
+    deeds (get_sched (run_tail cycles fuel limit s0 (map gt_top cur)) 0%N) = [].
+Proof.
+  intros O W Hi ND Dq0 OK. unfold run_tail in *.
+  destruct (enter_own tk fuel s0 0%N (map gt_top cur)) as [s1 r] eqn:Ee.
+  assert (O1 : oof s1 = false).
+  { destruct r; try exact O.
+    - apply oof_cycle_loop in O. exact O.
+    - apply oof_cycle_loop in O. exact O.
+    - rewrite oof_emit in O. now apply oof_close_own in O. }
+  destruct (enter_all' fuel) as [En _].
+  destruct (En 0%N cur s0 o s1 r Ee O1 (idle_startable _ _ Hi) W (idle_st _ _ Hi) ND OK)
+    as (its & o1 & He & -> & Dq & G & OK1 & F & SD & En1).
+  rewrite Dq0 in Dq. cbn [app] in Dq.
+  assert (T1 : tyme s1 = tyme s0) by (destruct F as (-> & _); reflexivity).
+  destruct (tenter_wf vis z0 (tyme s0) (defs s0) cur o its o1 He) as [Sub Wf].
+  pose proof ND as ND'. apply NoDup_cons_iff in ND' as [N0 _].
+  assert (R : Rept vis z0 (set_rlive s1 true) its o1).
+  { split; [exact Dq|]. split; [apply ts_ok_rlive; exact G|].
+    split; [change (defs (set_rlive s1 true)) with (defs s1); destruct F as (_ & -> & _); auto|].
+    split; [eapply subl_NoDup; [apply subl_keep; exact Sub|exact ND]|].
+    destruct OK1 as [E D]. split; assumption. }
+  cbv zeta in *. rewrite T1 in O |- *.
+  destruct (cycle_spec_t' (gts_ids cur) cycles fuel (set_rlive s1 true) its o1 _ _ O R N0)
+    as (t' & o' & Hs & Ht & OK' & GF & SDc & Enc & Dqc).
+  { intros x Hx. eapply subl_In; eassumption. }
+  { intros x Hx Hn. exact (En1 x Hx Hn). }
+  change (tyme (set_rlive s1 true)) with (tyme s1) in Hs. rewrite T1 in Hs.
+  exists t', o'. split; [unfold tspec_tail; rewrite He; exact Hs|].
+  split; [exact Ht|]. split; [exact OK'|].
+  assert (GFa : gframe (gts_ids cur) (0%N :: gts_ids cur) s0 (set_rlive s1 true)).
+  { apply gf_rlive. apply frame_gframe. exact F. }
+  assert (SDa : same_doers s0 (cycle_loop tk cycles fuel (set_rlive s1 true) (option_map tabs limit)
+                    (tadd (tyme s0) match option_map tabs limit with Some l => l | None => tzero end))).
+  { eapply sd_trans; [|exact SDc]. exact SD. }
+  split; [eapply gframe_trans; eassumption|]. split; [exact SDa|]. split; [exact Enc|exact Dqc].
+Qed.
+
+(* after a run: a doer is ended, or it was not touched *)
+Lemma idle_mixed s0 s : forall G,
+  all (g_idle1 s0) G -> all (g_wf1 vis z0 (defs s)) G -> same_doers s0 s ->
+  (forall x, In x (gts_ids G) ->
+     endedid s x \/ (get_gen s x = get_gen s0 x /\ get_sched s x = get_sched s0 x)) ->
+  all (g_idle1 s) G.
+Proof.
+  intros G Hi W SD. revert Hi W.
+  induction G as [|l r IH|n kids r IHk IH] using gtrees_ind; intros Hi W En; [exact I| |]; cbn [all g_idle1 g_wf1] in *.
+  - destruct Hi as [Il Ir]. destruct W as [_ Wr]. split.
+    + destruct (En (lf_id l)) as [[Gd _]|[Gg _]]; [rewrite gts_ids_leaf; now left| |]; unfold startable in *;
+        [now rewrite Gd|now rewrite Gg].
+    + apply IH; [exact Ir|exact Wr|]. intros x Hx. apply En. rewrite gts_ids_leaf. now right.
+  - destruct Hi as [(In_ & Do & Dq0 & Ik) Ir]. destruct W as [(_ & [kids0 D] & Wk) Wr].
+    split; [split; [|split; [|split]]|].
+    + destruct (En n) as [[Gd _]|[Gg _]]; [rewrite gts_ids_group; now left| |]; unfold startable in *;
+        [now rewrite Gd|now rewrite Gg].
+    + rewrite SD. exact Do.
+    + destruct (En n) as [[_ Dq]|[_ Gs]]; [rewrite gts_ids_group; now left| |].
+      * now rewrite D in Dq.
+      * now rewrite Gs.
+    + apply IHk; [exact Ik|exact Wk|]. intros x Hx. apply En. rewrite gts_ids_group. right. apply in_or_app. now left.
+    + apply IH; [exact Ir|exact Wr|]. intros x Hx. apply En. rewrite gts_ids_group. right. apply in_or_app. now right.
+Qed.
+
+Lemma idle_of_st s : forall G, all (g_st1 s) G -> (forall x, startable s x = true) -> all (g_idle1 s) G.
+Proof.
+  intros G St A. revert St.
+  induction G as [|l r IH|n kids r IHk IH] using gtrees_ind; intro St; [exact I| |]; cbn [all g_idle1 g_st1] in *.
+  - split; [apply A|apply IH, St].
+  - destruct St as [(Do & Dq & Sk) Sr]. split; [split; [apply A|split; [exact Do|split; [exact Dq|auto]]]|auto].
+Qed.
+
 End HRun.
